@@ -31,7 +31,7 @@ TIERS = {
     "quick": dict(
         paths=[dict(MaxDepth=4, PointIdx={1}, Octants={1, 4, 6, 7}, VecIdx={1}),
                dict(MaxDepth=3, PointIdx={5, 2}, Octants={2, 3, 5, 8}, VecIdx={5})],
-        matrix_points=geom.octant_points(geom.SMALL_POINTS[:2])),
+        matrix_points=geom.octant_points(geom.SMALL_POINTS[:4])),
     "thorough": dict(
         paths=[dict(MaxDepth=5, PointIdx={1, 5}, Octants={1, 2, 3, 4, 5, 6, 7, 8}, VecIdx={1}),
                dict(MaxDepth=4, PointIdx={2, 3, 4, 6, 7, 8, 9, 10, 11, 12}, Octants={1, 4, 6, 7}, VecIdx={2, 3, 4, 5})],
@@ -405,7 +405,7 @@ def main() -> int:
                     run.violation(f"tables at {rec['p']}: {clause} {w}",
                                   f"TLC rejects {clause} for {w} on the recorded real tables at {rec['p']}",
                                   {"kind": "matrix", "pos": rec["p"], "clause": clause, "where": w})
-        selftest(run, sc, recs)
+        selftest(run, sc, [r for r in recs if r["id"] not in failing])
     run.assumptions += [
         "points are Pythagorean (all sines and cosines rational), off every axis and coordinate plane",
         "projection to Cartesian by the textbook formulas of harness/geom.py with the experimental convention "
@@ -420,6 +420,7 @@ def selftest(run, sc, recs):
     """A recorded table with one corrupted entry must be rejected by the trace spec."""
     import copy
     if not recs:
+        run.coverage["trace_selftest"] = "skipped: no intact record"
         return
     good = copy.deepcopy(recs[0])
     bad1 = copy.deepcopy(good)
